@@ -24,9 +24,12 @@ INVARIANTS = "InClass LfpSolves BelowLFP FixpointIsLFP"
 
 def _outside(results):
     for r in results:
-        bad = [x for x in r.printed if "OUTSIDE" in x]
-        if bad:
+        if '"OUTSIDE"' in r.out:
+            bad = [x for x in r.out.splitlines() if "OUTSIDE" in x]
             raise ToolError("harness produced an input outside the statement's quantifier (or a broken table-driven Context): %s" % bad[:3])
+        # TLC wraps long tuples over several lines; the driver's pattern would then miss a rejection
+        if r.out.count('"BAD"') != len(r.bad):
+            raise ToolError("a BAD line of T_X01 was wrapped by TLC and not recognised by the driver:\n" + r.out[-1500:])
 
 
 def _canary(rep, shard):
